@@ -1,6 +1,7 @@
 package main
 
 import (
+	"encoding/json"
 	"fmt"
 	"os"
 	"path/filepath"
@@ -19,8 +20,9 @@ func hexOrDash(s string) string {
 	return hx([]byte(s))
 }
 
+// showFind renders the listing in the order FindSequences returned it: the order is part of the result
+// (C11: reproducible order), so nothing is sorted here
 func showFind(seqs []pgdump.SequenceData) string {
-	sort.Slice(seqs, func(i, j int) bool { return seqs[i].Filenode < seqs[j].Filenode })
 	parts := make([]string, len(seqs))
 	for i, s := range seqs {
 		parts[i] = fmt.Sprintf("%s:%d:%d:%d:%s", hexOrDash(s.Name), s.OID, s.Filenode, s.LastValue, b2s(s.IsCalled))
@@ -109,6 +111,40 @@ func init() {
 			return "err"
 		}
 		return showFind(seqs)
+	})
+	// seqrepeat (C11): FindSequences for every database name of the cluster and ScanAllSequences, 20 times each on
+	// the same directory; all renderings (json.Marshal, as `pgread -sequences` prints them) must be byte-identical
+	core.Register("seqrepeat", func(args []string) string {
+		dir, mismatch := buildCluster(args)
+		defer os.RemoveAll(dir)
+		if mismatch != "" {
+			return mismatch
+		}
+		var names []string
+		if args[0] != "~" {
+			for _, d := range pgdump.ParsePGDatabase(unhex(args[0])) {
+				names = append(names, d.Name)
+			}
+		}
+		render := func() string {
+			var sb strings.Builder
+			for _, n := range names {
+				seqs, err := pgdump.FindSequences(dir, n)
+				j, jerr := json.Marshal(seqs)
+				fmt.Fprintf(&sb, "%v %v %s\n", err != nil, jerr != nil, j)
+			}
+			res, err := pgdump.ScanAllSequences(dir)
+			j, jerr := json.Marshal(res)
+			fmt.Fprintf(&sb, "%v %v %s\n", err != nil, jerr != nil, j)
+			return sb.String()
+		}
+		first := render()
+		for i := 1; i < 20; i++ {
+			if again := render(); again != first {
+				return fmt.Sprintf("DIFFERS at repetition %d", i)
+			}
+		}
+		return "same"
 	})
 	// seqscan: args = pg_database file, claimed db list, one arg per database
 	core.Register("seqscan", func(args []string) string {
